@@ -98,7 +98,9 @@ class Buffer:
         A simpy.env.timeout() of duration topsim.common.globals.TIMESTEP
         """
         while True:
-            self.events = []
+            # self.events is consumed (and cleared) by the Monitor. It must
+            # not be cleared here: ingest and the scheduler add their buffer
+            # events earlier in the same timestep than this loop runs.
             if self.env.now % 1000 == 0:
                 LOGGER.debug(
                     "\nHotBuffer: %s \nColdBuffer: %s @ %d",
